@@ -216,8 +216,8 @@ class PP:
         """statement sequence: lets / assignments / sequenced expressions on their own lines"""
         k = e[0]
         if k == 'let':
-            # a record pattern on `self` is printed in canonical order: the compilers bind its fields POSITIONALLY (finding S1)
-            return "let %s = %s\n%s" % (pp_pat(e[1], None if e[2][0] == 'selfs' else self.shuffled), self.e(e[2], ind), ind) + self.block(e[3], ind)
+            # (a record pattern on `self` is shuffled like every other record pattern since the repair of S1: fields bind by name)
+            return "let %s = %s\n%s" % (pp_pat(e[1], self.shuffled), self.e(e[2], ind), ind) + self.block(e[3], ind)
         if k == 'seq':
             return self.stmt(e[1], ind) + "\n" + ind + self.block(e[2], ind)
         if k == 'asg':
@@ -657,7 +657,9 @@ def known_classes(p):
     return cls
 
 
-# ---- match: the compiler's arm selection against first-match order (findings M1 M2 M3) ----
+# ---- match: the compiler's arm selection against first-match order (finding M2; M1 and M3 are repaired: the model below is
+# mirgen.rs / bytecodegen.rs AFTER the repairs "a match takes the first arm that matches" and "of two arms with the same literal
+# the VM takes the first": `first_match_everywhere` is expected to hold for every match and is no longer a class) ----
 def _mcell(m):
     """PatternCell of mirgen.rs match_pattern_to_cell"""
     if m[0] == 'ml': return ('L', m[1])
@@ -691,7 +693,8 @@ def _dtree(matrix, cols):
             cells = list(cells)
             cells[c] = ('P',) if (cells[c][0] == 'C' and cells[c][2]) else ('W',)
             rows.append((cells, ai))
-        cases.append((key, _dtree(rows + wild, cols)))
+        # the rows of a case are kept in the order of the ARMS (repair of M1): the leaf takes the first row
+        cases.append((key, _dtree(sorted(rows + wild, key=lambda r: r[1]), cols)))
     default = _dtree(wild, cols[:pos] + cols[pos + 1:]) if wild else None
     return ('switch', c, cases, default)
 
@@ -727,12 +730,13 @@ def _mtest(m, v):
 
 
 def match_selection(pats, sumtys, ncols=None):
-    """The arm the real compiler selects (mirgen.rs eval_match: literal arms through a switch, the FIRST `_` arm as default;
-    eval_union_match: the same on the tag; eval_tuple_match: decision tree) against first-match order (the reference), on
-    one representative of every class of scrutinee values.  `sumtys`: tid -> constructor payload list.
-    -> first_match_everywhere: both agree on every value;  vm_wasm_differ: two arms for the same literal / constructor (the
-       VM's jump table keeps the last, WASM's the first);  no_arm: some value matches no arm;  copies: per arm, how often
-       the compiler compiles its body (each copy has its own state cells)."""
+    """The arm the real compiler selects (mirgen.rs eval_match: the arms that follow the first `_` arm are dropped, literal arms
+    through a switch whose table keeps the FIRST of two equal cases on both backends, the `_` arm as default; eval_union_match:
+    the same on the tag; eval_tuple_match: decision tree whose rows stay in arm order) against first-match order (the
+    reference), on one representative of every class of scrutinee values.  `sumtys`: tid -> constructor payload list.
+    -> first_match_everywhere: both agree on every value (always, since the repairs of M1 and M3; kept as a self-test of this
+       model);  no_arm: some value matches no arm;  copies: per arm, how often the compiler compiles its body (each copy has
+       its own state cells: finding M2)."""
     import itertools
     n = len(pats)
     is_tuple = any(m[0] == 'mt' for m in pats)
@@ -742,7 +746,7 @@ def match_selection(pats, sumtys, ncols=None):
             return list(range(max(len(sumtys.get(t, [])) for t in tids)))
         lits = sorted({m[1] for m in cells if m[0] == 'ml'})
         return lits + [(max(lits) + 1) if lits else 0]
-    res = {"first_match_everywhere": True, "vm_wasm_differ": False, "no_arm": False, "copies": [1] * n}
+    res = {"first_match_everywhere": True, "no_arm": False, "copies": [1] * n}
     if is_tuple:
         k = ncols or max(len(m[1]) for m in pats if m[0] == 'mt')
         rows = [([_mcell(x) for x in m[1]] if m[0] == 'mt' else [('W',)] * k, i) for i, m in enumerate(pats)]
@@ -756,15 +760,15 @@ def match_selection(pats, sumtys, ncols=None):
             if fm is None: res["no_arm"] = True
             if _dtree_eval(tree, vals) != fm: res["first_match_everywhere"] = False
         return res
-    keyed = [(m[1] if m[0] == 'ml' else m[2], i) for i, m in enumerate(pats) if m[0] in ('ml', 'mc')]
     default = next((i for i, m in enumerate(pats) if m[0] == 'mw'), None)
-    res["copies"] = [1 if (m[0] in ('ml', 'mc') or i == default) else 0 for i, m in enumerate(pats)]
+    live = n if default is None else default + 1            # the arms after the first `_` arm are dropped
+    keyed = [(m[1] if m[0] == 'ml' else m[2], i) for i, m in enumerate(pats[:live]) if m[0] in ('ml', 'mc')]
+    res["copies"] = [1 if i < live else 0 for i in range(n)]
     for v in domain(pats):
         fm = next((i for i, m in enumerate(pats) if _mtest(m, v)), None)
         if fm is None: res["no_arm"] = True
         hits = [i for key, i in keyed if key == v]
-        first, last = (hits[0], hits[-1]) if hits else (default, default)
-        if first != last: res["vm_wasm_differ"] = True
+        first = hits[0] if hits else default                # both backends take the first of two arms with the same key
         if first != fm: res["first_match_everywhere"] = False
     return res
 
@@ -784,8 +788,6 @@ def match_classes(p):
             if s[0] != 'match': continue
             pats = [m for m, _ in s[2]]
             sel = match_selection(pats, sumtys, len(s[1][1]) if s[1][0] == 'tup' else None)
-            if not sel["first_match_everywhere"]: cls.add("M1")
-            if sel["vm_wasm_differ"]: cls.add("M3")
             if any(c >= 2 and is_stateful_expr(body, funs) for c, (_, body) in zip(sel["copies"], s[2])): cls.add("M2")
     return cls
 
@@ -934,92 +936,39 @@ def known_classes(p):
     return cls
 
 
-def lambda_returns_sum_self(p):
-    """W10: a lambda whose result is its own `self`, of a sum type: directly, through a variable let-bound to it in the lambda, or
-    as the value of an if / match arm"""
-    def is_sum_self(e):
-        return e[0] == 'selfs' and e[1] != 'N' and e[1][0] == 'ss'
-    def tails(e):
-        e = tail_of(e)
-        if e[0] == 'if': return tails(e[2]) + tails(e[3])
-        if e[0] == 'match': return [t for _, b in e[2] for t in tails(b)]
-        return [e]
-    for b in all_bodies(p):
-        for l in subexprs(b):
-            if l[0] != 'lam': continue
-            bound = {s[1][1] for s in subexprs(l[2]) if s[0] == 'let' and s[1][0] == 'pv' and is_sum_self(s[2])}
-            if any(is_sum_self(t) or (t[0] == 'var' and t[1] in bound) for t in tails(l[2])):
-                return True
-    return False
+def tuple_match_binders(m):
+    """variables bound by the payload patterns of the constructor patterns inside the tuple pattern m"""
+    bound = set()
+    if m[0] == 'mt':
+        for c in m[1]:
+            if c[0] == 'mc' and c[3] is not None:
+                bound.update(pat_vars(c[3]))
+    return bound
 
 
-def reentrant_instances_class(p):
-    """W13 (WASM): a named function with a function-typed parameter returns (somewhere in its result) a stateful lambda that calls
-    that parameter, and the function is mentioned at least twice: an instance of the lambda may call another instance of the SAME
-    lambda (f(f(g)))"""
-    funs = set(fun_ids(p))
-    counts = {}
-    for b in all_bodies(p):
-        for x in subexprs(b):
-            if x[0] == 'var' and x[1] in funs:
-                counts[x[1]] = counts.get(x[1], 0) + 1
-    for g in p['globals']:
-        if g[0] != 'fun' or counts.get(g[1], 0) < 2: continue
-        fpars = {x for x, t, _ in g[2] if isinstance(t, (tuple, list)) and t[0] == 'Fn'}
-        if not fpars: continue
-        for l in nested_lambdas(g[3]):
-            calls = any((x[0] == 'app' and x[1][0] == 'var' and x[1][1] in fpars) or (x[0] == 'pipe' and x[2][0] == 'var' and x[2][1] in fpars)
-                        for x in subexprs(l[2]))
-            if calls and is_stateful_expr(l[2], funs):
-                return True
-    return False
-
-
-def tuple_match_binder_classes(p):
-    """M5 (both): a constructor pattern inside a tuple pattern whose payload pattern nests a tuple pattern that binds variables;
-    W11 (WASM): a lambda mentions a variable bound by a constructor pattern inside a tuple pattern"""
-    cls = set()
-    def nested_vars(q, depth):
-        if q[0] != 'pt': return False
-        if depth >= 1 and pat_vars(q): return True
-        return any(nested_vars(x, depth + 1) for x in q[1])
+def tuple_match_binder_escapes(p):
+    """W9, the limit of the repaired W11 (WASM): the VALUE of an arm of a tuple match is a closure (a lambda, or a variable let-bound
+    to one in the arm) that mentions a payload binder of a constructor pattern inside the tuple pattern: the closure holds the
+    ADDRESS of the payload in the frame of the function, like every WASM closure over a local cell; when it escapes and the
+    function runs again it reads the cell the latest call wrote (repaired: the closure called while the frame lives)"""
     for b in all_bodies(p):
         for s in subexprs(b):
             if s[0] != 'match': continue
             for m, body in s[2]:
-                if m[0] != 'mt': continue
-                bound = set()
-                for c in m[1]:
-                    if c[0] == 'mc' and c[3] is not None:
-                        bound.update(pat_vars(c[3]))
-                        if nested_vars(c[3], 0): cls.add("M5")
-                if bound:
-                    for l in subexprs(body):
-                        if l[0] == 'lam' and (mentions(l[2]) & bound): cls.add("W11")
-    return cls
-
-
-def self_pattern_var_in_literal(p):
-    """W12 (WASM): in a lambda, a variable bound by a pattern on the lambda's wide `self` is directly a component of a tuple /
-    record literal"""
-    for b in all_bodies(p):
-        for l in subexprs(b):
-            if l[0] != 'lam': continue
-            bound = set()
-            for s in subexprs(l[2]):
-                if s[0] == 'let' and s[2][0] == 'selfs' and s[1][0] in ('pt', 'pr'):
-                    bound.update(pat_vars(s[1]))
-            if not bound: continue
-            for s in subexprs(l[2]):
-                comps = [a for a in s[1]] if s[0] == 'tup' else ([a for _, a in s[1]] if s[0] == 'rec' else [])
-                if any(a[0] == 'var' and a[1] in bound for a in comps):
+                bound = tuple_match_binders(m)
+                if not bound: continue
+                lets = frame_lets(body)
+                t = tail_of(body)
+                lam = t if t[0] == 'lam' else (lets.get(t[1]) if t[0] == 'var' else None)
+                if lam is not None and lam[0] == 'lam' and (mentions(lam[2]) & bound):
                     return True
     return False
 
 
 def global_match_classes(p):
-    """MG: a match with a payload-binding constructor pattern evaluated at GLOBAL scope (in a top-level `let` initialiser; code
-    inside lambda bodies written there does not count: it is compiled as a function)"""
+    """MG (what is left of it): a lambda written in an arm of a match evaluated at GLOBAL scope (in a top-level `let` initialiser)
+    mentions a payload binder of that arm's constructor pattern: the lambda is compiled as a function of its own and sees the
+    binder as a register of the global initialiser.  (Repaired: the binder read by the arm itself.)"""
     cls = set()
     def top_level(e):
         yield e
@@ -1032,7 +981,10 @@ def global_match_classes(p):
         if g[0] != 'glet': continue
         for s in top_level(g[2]):
             if s[0] != 'match': continue
-            if any(mpat_vars(m) for m, _ in s[2]): cls.add("MG")
+            for m, body in s[2]:
+                bound = set(mpat_vars(m))
+                if bound and any(l[0] == 'lam' and (mentions(l[2]) & bound) for l in subexprs(body)):
+                    cls.add("MG")
     return cls
 
 
@@ -1040,7 +992,9 @@ _known_classes_v1 = known_classes
 
 
 def known_classes(p):
-    return _known_classes_v1(p) | match_classes(p) | global_match_classes(p) | ({"W10"} if lambda_returns_sum_self(p) else set()) | tuple_match_binder_classes(p) | ({"W13"} if reentrant_instances_class(p) else set()) | ({"W12"} if self_pattern_var_in_literal(p) else set())
+    # repaired and no longer classes (a deviation inside them is a VIOLATION): M1 M3 M5 W10 W11 W12 W13, and MG except for the
+    # lambda residue above
+    return _known_classes_v1(p) | match_classes(p) | global_match_classes(p) | ({"W9"} if tuple_match_binder_escapes(p) else set())
 
 
 # ---- C03/F66 (VM): GetUpValue of an open upvalue into a register above the stack top reads freed memory ----
